@@ -3,7 +3,9 @@ import ast
 
 from sa import cfg as cfgmod
 from sa import consume
+from sa import effects
 from sa import model
+from sa import norm
 from sa import universe as unimod
 
 TITLE = 'one-shot iterator parameters are consumed at most once per path'
@@ -455,6 +457,118 @@ def check_absence_is_not_null(repo, rep, uni, scope, rule, floor_fixture,
     return n
 
 
+def _reused_after_yield(fi):
+    """[(name, yield node, in-place write or None)] for every local
+    container fi yields."""
+    out = []
+    ys = [y for y in model.walk_shallow(fi.node)
+          if isinstance(y, ast.Yield) and isinstance(y.value, ast.Name)]
+    if not ys:
+        return out
+    g = cfgmod.CFG(fi.node)
+    writes = {}
+    for w in effects.writes_in(fi.node):
+        if w.kind in ('mutcall', 'subscript', 'del-subscript', 'aug') \
+                and w.root:
+            cn = g.node_of(w.node)
+            if cn is not None:
+                writes.setdefault(w.root, []).append((cn, w))
+    for y in ys:
+        name = y.value.id
+        if name in fi.params() or name not in writes:
+            continue
+        start = g.node_of(y)
+        hit = None
+        seen = set()
+        stack = [s for s, _ in start.succ] if start else []
+        while stack and hit is None:
+            nd = stack.pop()
+            if nd.id in seen:
+                continue
+            seen.add(nd.id)
+            for cn, w in writes[name]:
+                if cn is nd:
+                    hit = w
+            rebinds = nd.stmt is not None and isinstance(
+                nd.stmt, ast.Assign) and any(
+                isinstance(t, ast.Name) and t.id == name
+                for t in nd.stmt.targets) and nd.ast is nd.stmt
+            if hit is None and not rebinds:
+                stack.extend(s for s, _ in nd.succ)
+        out.append((name, y, hit))
+    return out
+
+
+def check_yielded_containers_not_reused(repo, rep, uni):
+    """R13e: what a generator has handed out belongs to the consumer.  A
+    local container that was yielded and is afterwards changed in place
+    (cleared, appended to, deleted from) without having been re-bound to a
+    new object changes under every consumer that kept the earlier results
+    (toList, reverse, orderBy ...): all pieces end up being the same
+    object."""
+    n = 0
+    for fi, role in uni.evaluation_time():
+        if not fi.module.name.startswith('yaql.standard_library'):
+            continue
+        for name, y, hit in _reused_after_yield(fi):
+            n += 1
+            rep.ob('R13e', '%s/yield[%s]' % (fi.key, name), hit is None,
+                   '%s yields the list `%s` and then changes that same '
+                   'object in place (`%s`) before binding the name to a new '
+                   'one: a consumer that keeps the yielded pieces sees them '
+                   'all change' % (fi.qualname, name,
+                                   model.norm(hit.node).split('\n')[0]
+                                   if hit else ''),
+                   loc=fi.module.loc(hit.node if hit else y))
+    from sa.rules import c09
+    fm = c09.load_fixture(repo, 'c13_fixture.py')
+    flagged = {f.name for f in fm.functions.values()
+               if any(h is not None for _, _, h in _reused_after_yield(f))}
+    rep.ob('R13e', 'fixtures/c13_fixture.py/positive-control',
+           flagged == {'bad_recycles_buffer'},
+           'positive control: expected bad_recycles_buffer flagged and '
+           'ok_rebinds_buffer silent; flagged %s' % sorted(flagged))
+    rep.ob('R13e', 'standard-library', True,
+           '%d yielded local containers followed' % n, nontrivial=True)
+
+
+def check_mapping_hash_ignores_order(repo, rep):
+    """R13d: dictionaries compare equal whatever the order their keys were
+    written in (FrozenDict has no __eq__ of its own: Mapping equality), so
+    the hash that distinct / groupBy / toSet / `in` look them up by must not
+    depend on that order: the items are combined with a commutative
+    operation (^, +, frozenset), never hashed as a sequence."""
+    ut = repo.module('yaql.language.utils')
+    ci = ut.classes.get('FrozenDict')
+    m = ci.methods.get('__hash__') if ci else None
+    if m is None:
+        raise AnalysisError('anchor vanished: FrozenDict.__hash__')
+    bad = []
+    good = 0
+    for c in model.calls_in(m.node):
+        if not (isinstance(c.func, ast.Name) and c.func.id == 'hash' and
+                c.args):
+            continue
+        a = norm.subst_locals(m.node, c.args[0], only_pure=False)
+        seq = isinstance(a, (ast.Tuple, ast.List)) or (
+            isinstance(a, ast.Call) and isinstance(a.func, ast.Name) and
+            a.func.id in ('tuple', 'list', 'str', 'repr'))
+        walks_items = any(isinstance(x, ast.Attribute) and x.attr in (
+            'items', 'keys', 'values', '_d') for x in ast.walk(a))
+        if seq and walks_items:
+            bad.append(c)
+        else:
+            good += 1
+    rep.ob('R13d', m.key, not bad and good > 0,
+           'FrozenDict.__hash__ hashes its items as a sequence (`%s`): two '
+           'equal dictionaries written with their keys in a different '
+           'order then hash differently, and distinct(), groupBy(), '
+           'toSet(), set operators and `in` treat them as different '
+           'values' % (model.norm(bad[0]) if bad else 'no item hash found'),
+           loc=ut.loc(bad[0] if bad else m.node),
+           construct=model.norm(bad[0]) if bad else '')
+
+
 def check_reiterable_premise(repo, rep):
     """R13b: R13a treats a name re-bound through memorize() as re-iterable.
     That holds only if every pass gets its own cursor: the class of the
@@ -535,6 +649,10 @@ def run(repo, rep):
              'to a consumer, returned) at most once, and never inside a '
              'loop, unless first re-bound to a re-iterable (memorize/tuple/'
              'to_list) or to an explicit cursor (iter())')
+    rep.rule('R13e', 'YIELDED-CONTAINERS-ARE-NOT-REUSED: a generator does not '
+             'change in place a container it has yielded')
+    rep.rule('R13d', 'MAPPING-HASH-IGNORES-ORDER: FrozenDict.__hash__ combines '
+             'its items commutatively')
     rep.rule('R13c', 'ABSENCE-IS-NOT-NULL: no local that means "nothing '
              'yet" while it is None is bound to a value of the evaluation, '
              'and no lookup-with-None-default is compared with None')
@@ -551,6 +669,8 @@ def run(repo, rep):
     uni = unimod.Universe(repo)
     cons = consume.Consumption(repo, uni)
     check_reiterable_premise(repo, rep)
+    check_mapping_hash_ignores_order(repo, rep)
+    check_yielded_containers_not_reused(repo, rep, uni)
     scope = [f for f, r in uni.evaluation_time()
              if f.module.name.startswith('yaql.standard_library')]
     check_absence_is_not_null(repo, rep, uni, scope, 'R13c', True)
